@@ -229,3 +229,21 @@ def is_opaque(c: Any) -> bool:
             return True
         return any(is_opaque(x) for x in c if isinstance(x, tuple))
     return False
+
+
+def opaque_note(exits: Any, loops_pred: Any = None) -> str:
+    """A clause that is looked for among the raising guards and not found
+    is not decided when some raising guard could not be normalised (it may
+    be that clause, spelled outside the term language).  Returns the text to
+    put in front of the message ('' if every guard was understood)."""
+    import ast as _ast
+    for e in exits:
+        if e.kind != "raise" or not is_opaque(e.cond):
+            continue
+        if loops_pred is not None and not loops_pred(e):
+            continue
+        src = _ast.unparse(e.test)[:70] if getattr(
+            e, "test", None) is not None else "?"
+        return f"cannot normalise the raising guard `{src}`: "
+    return ""
+
